@@ -17,7 +17,7 @@ Y2024 = (1704067200, 1735689599)
 
 
 def obligations(tier):
-    tfs = ["T5", "T45", "H1", "D1"] if tier == "quick" else ["S5", "T1", "T5", "T45", "H1", "H4", "D1", "D7"]
+    tfs = ["S10", "T5", "T45", "H1", "D1"] if tier == "quick" else ["S5", "T1", "T5", "T45", "H1", "H4", "D1", "D7"]
     obs = []
     for tf in tfs:
         for zone in ("fixed", "dst"):
@@ -25,7 +25,58 @@ def obligations(tier):
                 n = 2 if tier == "quick" else 3
                 obs.append(Ob(f"{tf}/zone={zone}/fill={fill}/n={n}", dict(tf=tf, n=n, zone=zone, fill=fill), CFG, weight=10,
                               budget_s=600 if tier == "quick" else 7200, max_paths=300000))
+    # timestamps handed over as ISO-8601 strings (Candle(...), from_dict, from_dicts): concrete wall-clock values
+    # (ordinary ones, and ones around both DST transitions of the rule zone), the zone stays symbolic
+    for zone in ("fixed", "dst"):
+        for i, stamps in enumerate(ISO_SETS):
+            for tf in ("T5", "H1") if tier == "quick" else ("S10", "T5", "T45", "H1", "D1"):
+                obs.append(Ob(f"iso-strings/set{i}/{tf}/zone={zone}", dict(tf=tf, zone=zone, stamps=stamps), CFG, fn="run_iso", weight=5, budget_s=600, max_paths=20000))
     return obs
+
+
+ISO_SETS = [
+    ["2024-01-15T09:03:00", "2024-01-15T09:04:30", "2024-01-15T09:05:00", "2024-01-15T09:58:10", "2024-01-15T10:00:00"],
+    ["2024-03-31T01:59:00", "2024-03-31T02:30:00", "2024-03-31T03:00:00", "2024-03-31T03:00:05"],       # spring-forward gap of the rule zone
+    ["2024-10-27T01:55:00", "2024-10-27T02:00:00", "2024-10-27T02:30:00", "2024-10-27T03:01:00"],       # fall-back overlap
+    ["2024-06-30T23:59:59", "2024-07-01T00:00:00", "2024-07-01T00:00:01"],
+]
+
+
+def run_iso(ctx, P):
+    from datetime import datetime as _dt
+    _, _, Candle, CandleManager, _ = lib()
+    tf = P["tf"]
+    tfs = tf_secs(tf)
+    stamps = P["stamps"]
+    n = len(stamps)
+    if P["zone"] == "fixed":
+        k = ctx.symint("tzk", -48, 56)
+    vals = [sym_ohlcv(ctx, i, "") for i in range(n)]
+    ts = [int((_dt.fromisoformat(s) - _dt(1970, 1, 1)).total_seconds()) for s in stamps]
+    if ctx.symbolic:
+        import z3
+        from symx import symtime
+        symtime.TZ_OFF[0] = symtime.FixedZone(k.t * 900) if P["zone"] == "fixed" else symtime.RuleZone(z3.IntVal(3600), DST_ON, DST_OFF)
+    try:
+        for form in ("Candle", "from_dict", "from_dicts"):     # from_list documents datetime objects only
+            if form == "Candle":
+                cs = [Candle(*v, timestamp=s) for v, s in zip(vals, stamps)]
+            elif form == "from_dict":
+                cs = [Candle.from_dict(dict(open=v[0], high=v[1], low=v[2], close=v[3], volume=v[4], timestamp=s)) for v, s in zip(vals, stamps)]
+            else:
+                cs = Candle.from_dicts([dict(open=v[0], high=v[1], low=v[2], close=v[3], volume=v[4], timestamp=s) for v, s in zip(vals, stamps)])
+            ctx.equal(f"{form}: candle timestamps are the written wall-clock values", [ctx.sec_of(c.timestamp) for c in cs], ts)
+            ref = ref_resample(ctx, cs, ts, tfs)
+            for label, pre, chunks in (("construction", n, []), ("singles", 0, [1] * n)):
+                m = drive_manager(cs, tf, False, pre, chunks)
+                got = lib_view(ctx, m.candles)
+                if form == "Candle" and label == "construction":
+                    ctx.observe("collapsed", got)
+                if ctx.require(f"{form}/{label}:bucket-count", len(got) == len(ref), f"library {len(got)} candles, zone-free reference {len(ref)}"):
+                    ctx.equal(f"{form}/{label}:buckets==zone-free-reference", got, ref_view(ref))
+    finally:
+        if ctx.symbolic:
+            symtime.TZ_OFF[0] = None
 
 
 def posix_tz(offset_s):
